@@ -103,7 +103,7 @@ func (block *CBlock) updateTop(changedCandidates []*Candidate) {
 	} else if block.Top.Count() > newTop.Count() {
 		// some candidates unregistered. so maybe some normal nodes will become new candidates
 		// resort all candidates
-		block.Top.Rank(max_candidate_count, block.CandidateTrieDB.GetAll())
+		block.Top.Rank(max_candidate_count, block.registeredCandidates())
 	} else if newTop.Min().Total.Cmp(block.Top.Min().Total) >= 0 {
 		// the min votes become bigger, it means some old candidates get richer now.
 		// the other candidates whose vote is not changed, must not be in the top list. so we can just use the newTop
@@ -112,8 +112,26 @@ func (block *CBlock) updateTop(changedCandidates []*Candidate) {
 		// the min votes become smaller, it means some old candidates lose their vote.
 		// maybe the loser candidates will become normal nodes, and some normal nodes will become new candidates
 		// resort all candidates
-		block.Top.Rank(max_candidate_count, block.CandidateTrieDB.GetAll())
+		block.Top.Rank(max_candidate_count, block.registeredCandidates())
 	}
+}
+
+// registeredCandidates returns the candidates from the global list which are still registered in this block's account state.
+// The global list never drops a candidate (the deposit refund needs the unregistered ones), it only sets their votes to 0. Without this filter a full
+// re-rank lists unregistered accounts behind the registered ones, and only on nodes which have not been restarted since (the list is filtered at start)
+func (block *CBlock) registeredCandidates() []*Candidate {
+	all := block.CandidateTrieDB.GetAll()
+	result := make([]*Candidate, 0, len(all))
+	for _, candidate := range all {
+		account, err := block.AccountTrieDB.Get(candidate.Address)
+		if err != nil || account == nil {
+			continue
+		}
+		if account.Candidate.Profile[types.CandidateKeyIsCandidate] == types.IsCandidateNode {
+			result = append(result, candidate)
+		}
+	}
+	return result
 }
 
 func (block *CBlock) Ranking(voteLogs types.ChangeLogSlice) {
